@@ -831,7 +831,31 @@ def r14_9(ctx, prog, crate):
     r13_6(Renamed(ctx, "R14.9"), prog, crate)
 
 
+def r14_10(ctx, prog, crate):
+    """What is listed is what runs: a leaf carries an argument list exactly when its runner takes arguments -
+    AnyBenchEntry::arg_names answers Some(the runner's names) for every Args runner, whatever the list holds, and None
+    otherwise. retain() prunes a leaf with an empty list; were an empty list reported as None, the leaf would be kept and
+    listed as a plain benchmark although the Args runner executes nothing for it."""
+    from lib.patheval import PathEval
+    b = prog.body("entry::AnyBenchEntry::arg_names", crate)
+    if not ctx.anchor("R14.10", "AnyBenchEntry::arg_names", 1 if b else 0, 1):
+        return
+    ctx.saw(b)
+    sums = PathEval(b).run()
+    if not ctx.check(bool(sums), "R14.10", ["arg_names", "readable"], "cannot summarise AnyBenchEntry::arg_names", b.where(0)):
+        return
+    some = [s_ for s_ in sums if s_.ret[0] == "adt" and s_.ret[2] == "Some"]
+    none = [s_ for s_ in sums if s_.ret[0] == "adt" and s_.ret[2] == "None"]
+    only_runner = all(len(s_.conds) == 1 and s_.conds[0][0][0] == "discr" and "bench_runner" in str(s_.conds[0][0][1]) for s_ in sums)
+    from_runner = all("BenchArgsRunner::arg_names" in str(s_.ret[3]) for s_ in some)
+    ctx.check(len(some) >= 1 and len(none) >= 1 and len(some) + len(none) == len(sums) and only_runner and from_runner, "R14.10",
+              ["arg_names", "Some-iff-Args-runner"],
+              "AnyBenchEntry::arg_names is not `Some(runner.arg_names())` exactly for an Args runner: %d paths, conditions %s"
+              % (len(sums), sorted({str(c[0][:1]) + str(len(s_.conds)) for s_ in sums for c in s_.conds})), b.where(0))
+
+
 def run(ctx, prog, crate):
+    r14_10(ctx, prog, crate)
     r14_9(ctx, prog, crate)
     r14_7(ctx, prog, crate)
     r14_8(ctx, prog, crate)
